@@ -1,10 +1,11 @@
 (** C07  Decoding untrusted bytes is safe: no panic, bounded memory and work.
     Property theorems only; definitions in Cost.v, proofs in CostFacts.v / CostLoops.v /
-    CostBasic.v / CostBounds.v / CostMain.v. *)
+    CostBasic.v / CostBounds.v / CostMain.v; the tight bounds in CostTight.v / CostTightMain.v. *)
 From Coq Require Import String.
 From Coq Require Import List NArith.
 From Coq.Strings Require Import Byte.
-From Borsh Require Import Bytes Result Ty Ser De Entry Cost CostFacts CostLoops CostBasic CostBounds CostMain.
+From Borsh Require Import Bytes Result Ty Ser De Entry Cost CostFacts CostLoops CostBasic CostBounds CostMain
+     CostTight CostTightMain.
 Import ListNotations.
 Local Open Scope N_scope.
 
@@ -178,4 +179,113 @@ Example C07_ex_constants :
   (K0 0 1 ex_sz (TSeq SVec u32), K1 0 1 ex_sz (TSeq SVec u32)) = (1, 1) /\
   (K0 0 1 ex_sz (TSeq SVec (TSeq SVec u32)), K1 0 1 ex_sz (TSeq SVec (TSeq SVec u32))) = (2, 3) /\
   (K0 1 0 ex_sz (TSeq SVec (TSeq SVec u8)), K1 1 0 ex_sz (TSeq SVec (TSeq SVec u8))) = (2105769, 1052797).
+Proof. vm_compute. repeat split; reflexivity. Qed.
+
+(** * Tight bounds (CostTight.v /\
+CostTightMain.v)
+    The constants of [C07_alloc] charge a collection the additive constant of its element
+    once PER ELEMENT, so the 1 MiB that a failing [Vec<u8>] may request becomes a cost per
+    input byte of [Vec<Vec<u8>>] (K1 = 1052797).  But decoding stops at the first failure,
+    and a SUCCESSFUL [Vec<u8>] decode has requested at most 5 * (bytes it consumed).  With
+    separate constants for success (S0) and failure (F0), a = weight of a requested byte,
+    b = weight of an element decode, e = size_of of the element type:
+      Vec<u8>, String, ...:  S0 = 0   F0 = a * 2^20                    S1 = 5a
+      BytesMut:               S0 = 0   F0 = 4096a + b                    S1 = b + 4a
+      Vec<T>, collections:    S0 = 0   F0 = a * max 4096 e + b + F0 T    S1 = S0 T + b + S1 T + 4ae
+      [u8; n]: 0, 0, 0;  [T; n]: S0 = n * (S0 T + b), F0 = (n-1) * (S0 T + b) + b + F0 T, S1 = S1 T
+      tuples / structs:       S0 = sum S0,  F0 = max_k (S0 T1 + .. + S0 T(k-1) + F0 Tk),  S1 = max S1
+      enums: maxima over the variants;  wrappers: as the wrapped type.
+    The failure constant of the element is ADDED once, not multiplied by the length. *)
+
+(** Allocation: total of all requests <= F0 + S1 * |input|. *)
+Theorem C07_alloc_tight :
+  forall (sz : ty -> N) (c : cfg) (t : ty) (bs : bytes),
+    sz_ok sz -> fam t = true ->
+    total_requested (cost_of (fst (cdec sz c t bs))) <= F0 1 0 sz t + S1 1 0 sz t * len bs.
+Proof. exact cdec_alloc_tight. Qed.
+Print Assumptions C07_alloc_tight.
+
+(** Work: element decodes started <= F0 + S1 * |input| (weights a = 0, b = 1). *)
+Theorem C07_work_tight :
+  forall (sz : ty -> N) (c : cfg) (t : ty) (bs : bytes),
+    sz_ok sz -> fam t = true ->
+    elems (cost_of (fst (cdec sz c t bs))) <= F0 0 1 sz t + S1 0 1 sz t * len bs.
+Proof. exact cdec_work_tight. Qed.
+Print Assumptions C07_work_tight.
+
+(** A successful decode has requested at most S0 + S1 * (bytes consumed); S0 = 0 for every
+    collection and text type: an accepted input never costs the 1 MiB. *)
+Theorem C07_alloc_success :
+  forall (sz : ty -> N) (c : cfg) (t : ty) (bs : bytes) (v : val) (rest : bytes),
+    sz_ok sz -> fam t = true -> snd (cdec sz c t bs) = Ok (v, rest) ->
+    len rest <= len bs /\
+    total_requested (cost_of (fst (cdec sz c t bs))) <= S0 1 0 sz t + S1 1 0 sz t * (len bs - len rest).
+Proof. exact cdec_alloc_success. Qed.
+Print Assumptions C07_alloc_success.
+
+Theorem C07_work_success :
+  forall (sz : ty -> N) (c : cfg) (t : ty) (bs : bytes) (v : val) (rest : bytes),
+    sz_ok sz -> fam t = true -> snd (cdec sz c t bs) = Ok (v, rest) ->
+    len rest <= len bs /\
+    elems (cost_of (fst (cdec sz c t bs))) <= S0 0 1 sz t + S1 0 1 sz t * (len bs - len rest).
+Proof. exact cdec_work_success. Qed.
+Print Assumptions C07_work_success.
+
+(** The tight constants are never above the loose ones. *)
+Theorem C07_tight_le_loose :
+  forall (alpha beta : N) (sz : ty -> N) (t : ty),
+    sz_ok sz -> F0 alpha beta sz t <= K0 alpha beta sz t /\ S1 alpha beta sz t <= K1 alpha beta sz t.
+Proof. exact tight_le_loose. Qed.
+Print Assumptions C07_tight_le_loose.
+
+(** the tight constants (F0, S1) for bytes requested; element sizes as in [ex_sz], a
+    (String, Vec<u32>) tuple of 48 bytes *)
+Definition ex_sz2 (t : ty) : N := match t with TProd _ _ => 48 | _ => ex_sz t end.
+Definition vec_vec_u8 := TSeq SVec (TSeq SVec u8).
+Definition string_vec_u32 := TProd PTuple [TText XString; TSeq SVec u32].
+
+Example C07_ex_constants_tight :
+  (F0 1 0 ex_sz (TSeq SVec u8), S1 1 0 ex_sz (TSeq SVec u8)) = (1048576, 5) /\
+  (F0 1 0 ex_sz (TSeq SVec u32), S1 1 0 ex_sz (TSeq SVec u32)) = (4096, 16) /\
+  (F0 1 0 ex_sz vec_vec_u8, S1 1 0 ex_sz vec_vec_u8) = (1052672, 101) /\
+  (F0 1 0 ex_sz (TSeq SVec vec_vec_u8), S1 1 0 ex_sz (TSeq SVec vec_vec_u8)) = (1056768, 197) /\
+  (F0 1 0 ex_sz2 (TSeq SVec string_vec_u32), S1 1 0 ex_sz2 (TSeq SVec string_vec_u32)) = (1052672, 208) /\
+  (F0 1 0 ex_sz2 (TSeq SHashMap (TProd PTuple [TText XString; TSeq SVec u8])),
+   S1 1 0 ex_sz2 (TSeq SHashMap (TProd PTuple [TText XString; TSeq SVec u8]))) = (1052672, 197) /\
+  (F0 1 0 ex_sz (TText XBytesMut), S1 1 0 ex_sz (TText XBytesMut)) = (4096, 4) /\
+  (* element decodes *)
+  (F0 0 1 ex_sz vec_vec_u8, S1 0 1 ex_sz vec_vec_u8) = (1, 1) /\
+  (F0 0 1 ex_sz (TSeq SVec (TSeq SVec u32)), S1 0 1 ex_sz (TSeq SVec (TSeq SVec u32))) = (2, 2) /\
+  (* success constants *)
+  S0 1 0 ex_sz vec_vec_u8 = 0 /\ S0 1 0 ex_sz2 (TSeq SVec string_vec_u32) = 0 /\
+  (* the loose constants of the same types, for comparison *)
+  (K0 1 0 ex_sz vec_vec_u8, K1 1 0 ex_sz vec_vec_u8) = (2105769, 1052797) /\
+  (K0 1 0 ex_sz (TSeq SVec vec_vec_u8), K1 1 0 ex_sz (TSeq SVec vec_vec_u8)) = (3158849, 3158666).
+Proof. vm_compute. repeat split; reflexivity. Qed.
+
+(** the hostile input of [C07_ex_vec_vec_u8] (8 bytes, cost 1052656): the tight bound is
+    1053480 = cost + 824; the loose bound of [C07_alloc] is 10528145 *)
+Example C07_ex_tightness :
+  total_requested (snd (dec_cost ex_sz ex_cfg vec_vec_u8 (ffff ++ ffff))) = 1052656 /\
+  F0 1 0 ex_sz vec_vec_u8 + S1 1 0 ex_sz vec_vec_u8 * len (ffff ++ ffff) = 1053480 /\
+  (1052656 <=? F0 1 0 ex_sz vec_vec_u8 + S1 1 0 ex_sz vec_vec_u8 * 8) = true /\
+  (F0 1 0 ex_sz vec_vec_u8 + S1 1 0 ex_sz vec_vec_u8 * 8 <=? 1052656 + 1024) = true /\
+  (F0 1 0 ex_sz vec_vec_u8 + S1 1 0 ex_sz vec_vec_u8 * 8 <=? 2 * 1052656 + 65536) = true /\
+  K0 1 0 ex_sz vec_vec_u8 + K1 1 0 ex_sz vec_vec_u8 * 8 = 10528145.
+Proof. vm_compute. repeat split; reflexivity. Qed.
+
+(** three levels: one outer element, one middle element, then the hostile inner prefix:
+    cost 1052680 against a bound of 1056768 + 197 * 12 *)
+Example C07_ex_three_levels :
+  total_requested (snd (dec_cost ex_sz ex_cfg (TSeq SVec vec_vec_u8) ([x01; x00; x00; x00] ++ ffff ++ ffff))) = 1052680 /\
+  F0 1 0 ex_sz (TSeq SVec vec_vec_u8) + S1 1 0 ex_sz (TSeq SVec vec_vec_u8) * 12 = 1059132.
+Proof. vm_compute. repeat split; reflexivity. Qed.
+
+(** an accepted input: two inner vectors of 3 and 2 bytes (17 bytes in all) cost
+    2 * 24 (outer buffer) + 3 + 2, far below S1 * 17 and without any constant *)
+Example C07_ex_success :
+  snd (dec_cost ex_sz ex_cfg vec_vec_u8
+         ([x02; x00; x00; x00] ++ [x03; x00; x00; x00; x01; x02; x03] ++ [x02; x00; x00; x00; x01; x02])) =
+  {| max_request := 48; total_requested := 53; elems := 2; max_explicit := 48; conv_units := 0; conv_bytes := 0 |} /\
+  S0 1 0 ex_sz vec_vec_u8 + S1 1 0 ex_sz vec_vec_u8 * 17 = 1717.
 Proof. vm_compute. repeat split; reflexivity. Qed.
